@@ -308,6 +308,10 @@ def run(ctx):
                 bad[pos:pos + 3] = (n + d).to_bytes(3, 'big')
                 add(bad)
                 add(bad, None, info=True)
+                # with the expected values (7777) not enforced an undetected overrun would go through silently;
+                # trailing bytes so that a misaligned section 5 still finds four octets
+                add(bad, None, ignexp=True)
+                add(bytes(bad) + b'7777\x00\x00', None, ignexp=True)
             # a section declared shorter than its content: overrun error
             content = {1: n, 2: 4, 3: 7, 4: 4}[k]
             if k in (1,):
